@@ -96,6 +96,16 @@ class Kinds:
             dd = single_def(self.f, d)
             if dd is not None and dd is not e:
                 return self.kind(dd, depth + 1)
+            # a local initialised from _getFlagAddress(..) is an ADDRESS in the compressed system (even if it is incremented later)
+            for x in self.f.walk():
+                if x["k"] == "VarDecl" and x.get("d") == d and x.get("c") and x["c"][0] is not None:
+                    init = x["c"][0]
+                    while init["k"] == "Cast":
+                        init = init["c"][0]
+                    if init["k"] == "MCall" and (init.get("callee") or "").endswith("::_getFlagAddress"):
+                        return "ADDR"
+        if k == "MCall" and (e.get("callee") or "").endswith("::_getFlagAddress"):
+            return "ADDR"
         if k == "DeclRefExpr" and e.get("dk") == "parm":
             if e["n"] in ("iech_out",):
                 return "RANK_OUT"
@@ -153,11 +163,11 @@ def main(tier):
                 ok = kd is None or kd in want
                 name = show(arg)[:30]
                 ordn[(what, name)] = ordn.get((what, name), 0) + 1
-                chk.ob("C01", "%s: %s receives `%s` (%s)" % (f.name, what, name, {None: "kind not inferred", "POS": "position in the neighbourhood",
+                chk.ob("C01", "%s: %s receives `%s` (%s)" % (f.name, what, name, {None: "kind not inferred", "POS": "position in the neighbourhood", "ADDR": "address in the compressed system",
                                                                                     "RANK_IN": "rank in the input Db", "RANK_OUT": "target rank"}[kd]),
                        f.loc(c), ok,
                        detail=None if ok else "`%s` is a %s but this %s expects %s: with a moving neighbourhood or a selection the system is assembled "
-                       "over other samples than the neighbourhood" % (name, {"POS": "position in the neighbourhood (0.._nech-1)",
+                       "over other samples than the neighbourhood" % (name, {"POS": "position in the neighbourhood (0.._nech-1)", "ADDR": "address of a (sample, variable) in the compressed kriging system",
                                                                                  "RANK_IN": "sample rank of the input Db", "RANK_OUT": "target rank"}[kd],
                                                                          what, " or ".join(sorted(want))),
                        key="C01|%s|%s|%s#%d" % (fkey, what, name, ordn[(what, name)]), nontrivial=kd is not None)
